@@ -24,6 +24,7 @@ type SpecEnv struct {
 	results []SV
 	loopEntry *State // set while a loop invariant is evaluated: the state on entry to that loop (builtin loopentry(E))
 	visitedKey, visitedSort string // set while an invariant of a map-range loop is evaluated: its visited-set component (ext_maprange.go)
+	fvAddr map[string]SV // call sites of closure contracts: addresses of the captured variables (so that `modifies v` can name one)
 }
 
 type specErr struct{ msg string }
@@ -463,6 +464,15 @@ func (e *SpecEnv) evalAddr(x Expr) (string, types.Type, bool) {
 				return a, t, true
 			}
 		}
+		// a captured variable of a closure is an lvalue: its cell is the binding (ext_kviter.go)
+		if a, ok := e.fvAddr[x.Name]; ok {
+			return a.t, a.typ, true
+		}
+		if e.fr != nil {
+			if a, t, ok := e.fr.freeVarAddr(x.Name); ok {
+				return a, t, true
+			}
+		}
 		return "", nil, false
 	case *EUnary:
 		if x.Op == "*" {
@@ -840,6 +850,8 @@ func (e *SpecEnv) evalCall(x *ECall) SV {
 					return SV{t: app("select", cur, pv.t), typ: mathInt}
 				}
 				return SV{t: app("select", cur, pv.t), typ: types.NewArray(types.Typ[types.Uint8], 0)}
+			case "initguard":
+				return e.extInitGuard() // ext_induct.go: the init$guard flag of the contract's package
 			case "ghostvar":
 				// ghostvar(NAME): current value of an auxiliary integer variable declared with `ghost NAME = INIT`
 				id, ok := x.Args[0].(*EIdent)
@@ -847,6 +859,15 @@ func (e *SpecEnv) evalCall(x *ECall) SV {
 					e.fail("ghostvar(NAME)")
 				}
 				return SV{t: fc.comp(e.cur, "G|v|"+id.Name, "Int"), typ: mathInt}
+			case "inblock":
+				// inblock(p, s): pointer p is the address of an element of the backing array of slice s (any index) (ext_crypto.go)
+				return e.inblockBuiltin(x)
+			case "seqpart":
+				// seqpart(a, off, n): the byte string held by the window [off, off+n) of a byte array VALUE or slice (ext_crypto.go)
+				return e.seqpartBuiltin(x)
+			case "visited":
+				// visited(k): the ghost visited set of the map range loop whose invariant is being evaluated (ext_crypto.go)
+				return e.visitedBuiltin(x)
 			case "ptrof":
 				// ptrof(x): the pointer held by an interface value
 				v := e.eval(x.Args[0])
@@ -875,6 +896,18 @@ func (e *SpecEnv) evalCall(x *ECall) SV {
 				a, b := e.eval(x.Args[0]), e.eval(x.Args[1])
 				fc.eng.declareUF(fc, "bcat", []string{"Int", "Int"}, "Int")
 				return SV{t: app("bcat", a.t, b.t), typ: mathInt}
+			case "strkey":
+				return e.evalStrKey(x) // ext_kviter.go
+			case "kvsub":
+				return e.evalKvSub(x) // ext_kviter.go
+			case "kvstr":
+				// T-KV: kvstr(s): value id of the byte string held by the Go string s (ext_kvstr.go)
+				v := e.eval(x.Args[0])
+				if fc.tc.sortOfSV(v) != "Str" {
+					e.fail("kvstr of %s", v.typ)
+				}
+				fc.eng.declareUF(fc, "kvstr", []string{"Str"}, "Int")
+				return SV{t: app("kvstr", v.t), typ: mathInt}
 			case "kvkey", "kvval":
 				// T-KV: kvkey(s) / kvval(s): abstract identity of the byte string held by s (slice or array), used as key /
 				// value of a key-value store. Uninterpreted function of (block, offset, length) exactly like bigbytes, i.e. any
@@ -899,7 +932,7 @@ func (e *SpecEnv) evalCall(x *ECall) SV {
 				return SV{t: app("select", fc.comp(e.cur, k, s), sarr(v.t)), typ: types.NewArray(types.Typ[types.Uint8], 0)}
 			case "int", "uint64", "uint32", "uint16", "uint8", "byte", "int64", "int32", "uint", "mathint":
 				return SV{t: e.eval(x.Args[0]).t, typ: mathInt}
-			case "blen", "sub", "strseq", "bytestr":
+			case "blen", "sub", "strseq", "bytestr", "stralgebra", "noaxioms":
 				// T-BYTES algebra (ext_bytesalgebra.go); a spec function of the same name takes precedence
 				if e.lookupSpecFn(id.Name) == nil {
 					if v, ok := e.evalAlgebraBuiltin(id.Name, x.Args); ok {
@@ -1062,9 +1095,26 @@ func (e *SpecEnv) applySpecFn(sf *SpecFn, argExprs []Expr) SV {
 		ret := n.resolveType(sf.Ret)
 		var sorts, ts []string
 		for i, a := range args {
+			if isNilType(a.typ) {
+				a = n.vars[sf.Params[i].Name] // a literal nil argument: the typed zero value (a nil slice is (content, 0, 0), not a pointer)
+			}
 			ss, tt := e.uninterpArg(a, n.resolveType(sf.Params[i].Type)) // slices of leaf elements: (block content, offset, length), see ext_c34.go
 			sorts = append(sorts, ss...)
 			ts = append(ts, tt...)
+		}
+		if len(sf.Reads) > 0 {
+			// `reads` clause: the listed heap components (of the state the call is evaluated in) are extra arguments
+			rs, rt := e.readsArgs(sf, &n)
+			e.readsFrameArgs("sf_"+mangle(sf.Pkg+"_"+sf.Name), e.fc.tc.sortOf(ret), rs, rt, func(ent *SpecEnv) []string { _, t0 := ent.readsArgs(sf, &n); return t0 }, sorts, args,
+				func(env *SpecEnv) []string { // the actual arguments as rendered in state env.cur (slices: block content, offset, length)
+					var out []string
+					for i, a := range args {
+						_, tt := env.uninterpArg(a, n.resolveType(sf.Params[i].Type))
+						out = append(out, tt...)
+					}
+					return out
+				})
+			sorts, ts = append(rs, sorts...), append(rt, ts...)
 		}
 		name := "sf_" + mangle(sf.Pkg+"_"+sf.Name)
 		e.fc.eng.declareUF(e.fc, name, sorts, e.fc.tc.sortOf(ret))
@@ -1351,6 +1401,9 @@ func (e *SpecEnv) applyRec(sf *SpecFn, n *SpecEnv, args []SV) SV {
 	if sf.Ret != "" && sf.Ret != "mathint" {
 		ret = n.resolveType(sf.Ret)
 	}
+	if t, ok := recSubst[fc][name]; ok { // ext_induct.go: frame axiom construction replaces the recursive call by a bound variable
+		return SV{t: t, typ: ret}
+	}
 	comps, known := fc.recInfo[name]
 	if !known {
 		if fc.recBusy[name] {
@@ -1397,6 +1450,7 @@ func (e *SpecEnv) applyRec(sf *SpecFn, n *SpecEnv, args []SV) SV {
 			sorts = append(sorts, fc.tc.sortOf(n.resolveType(b.Type)))
 			_ = i
 		}
+		e.extRecLimitBegin(sf, name, sorts, fc.tc.sortOf(ret)) // ext_induct.go: `reclimit`
 		fc.eng.declareUF(fc, name, sorts, fc.tc.sortOf(ret))
 		probe.cur, probe.old = st, st
 		body := probe.eval(sf.Body)
@@ -1406,13 +1460,34 @@ func (e *SpecEnv) applyRec(sf *SpecFn, n *SpecEnv, args []SV) SV {
 		}
 		fc.ufAxioms[name] = fmt.Sprintf("(assert (forall (%s) (! (= %s %s) :pattern (%s))))", strings.Join(append(hdecls, decls...), " "), call, body.t, call)
 		fc.assumes["rec spec "+sf.Pkg+"."+sf.Name+": defining equation (syntactically well-founded on its last parameter)"] = true
+		if fa := recFrameAxioms(name, comps, hnames, fc.comps, hdecls, decls, argNames, body.t); fa != "" {
+			fc.ufAxioms[name] += "\n" + fa // ext_recframe.go: stores at allocation roots do not change the value
+		}
+		e.extRecLimitEnd(sf, name, strings.Join(append(hdecls, decls...), " "), call)
+		e.extRecFrame(sf, n, name, comps, fc.tc.sortOf(ret))
 	}
 	var ts []string
+	var hsorts, asorts []string
 	for _, k := range comps {
 		ts = append(ts, fc.comp(e.cur, k, fc.comps[k]))
+		hsorts = append(hsorts, fc.comps[k])
 	}
 	for _, a := range args {
+		asorts = append(asorts, fc.tc.sortOfSV(a))
+	}
+	// frame rule w.r.t. the entry state (opt-in `uses readsframe`, ext_crypto.go)
+	e.readsFrame(name, fc.tc.sortOf(ret), hsorts, append([]string{}, ts...), func(ent *SpecEnv) []string {
+		var t0 []string
+		for _, k := range comps {
+			t0 = append(t0, fc.comp(ent.cur, k, fc.comps[k]))
+		}
+		return t0
+	}, asorts, args)
+	for _, a := range args {
 		ts = append(ts, a.t)
+	}
+	if rn, ok := recRename[fc][name]; ok { // ext_induct.go: inside the defining axiom of a `reclimit`ed function
+		return SV{t: app(rn, ts...), typ: ret}
 	}
 	return SV{t: app(name, ts...), typ: ret}
 }
